@@ -59,7 +59,7 @@ Definition bin_type (op : binop) (lt rt : Z) : Z :=
   else if is_cmp op then 1
   else if ((lt =? 5) && negb (rt =? 5)) || ((rt =? 5) && negb (lt =? 5)) then TU
   else if (lt =? 5) && (rt =? 5) && negb (is_add op) then TU
-  else if is_mod op then
+  else if is_mod op || is_intdiv op then      (* INTDIV like MOD since the fix commit for D46 *)
     if negb (is_num lt) || negb (is_num rt) then TU
     else if (lt =? 1) && (rt =? 1) then 1 else 2
   else join_type op lt rt.
